@@ -331,7 +331,18 @@ func flSoupDigits(rng *rand.Rand) string {
 // flSoupLine produces one line.  Numeric fields are pure digit strings or clearly
 // not numbers (FmtLine models "number" as "all digits"; full number syntax is C03).
 func flSoupLine(rng *rand.Rand, wide bool) string {
-	b := func() string { return flSoupBlanks[rng.Intn(len(flSoupBlanks))] }
+	b := func() string {
+		if rng.Intn(3) == 0 {
+			// a run of two to four blanks mixing ASCII and non-ASCII white space in any order
+			one := []string{" ", "\t", "\u00a0", "\u2003", "\u0085", "\u3000"}
+			var sb strings.Builder
+			for i, n := 0, 2+rng.Intn(3); i < n; i++ {
+				sb.WriteString(one[rng.Intn(len(one))])
+			}
+			return sb.String()
+		}
+		return flSoupBlanks[rng.Intn(len(flSoupBlanks))]
+	}
 	switch rng.Intn(16) {
 	case 0, 1, 2:
 		return flSoupKey(rng, wide) + ":" + []string{" ", "\t", "  "}[rng.Intn(3)] + flSoupWord(rng, 1+rng.Intn(4)) + []string{"", " ", " x y"}[rng.Intn(3)]
